@@ -405,6 +405,11 @@ def _build_trough(name, t, need, comp, other=None):
         names[ocol] = oname
         init[ocol] = float(t["min_volume"]) + oneed + float(t["margin"])
     names = [n if v > 0 else None for n, v in zip(names, init)]  # robotools refuses names for empty columns
+    if (t["virtual_rows"] + cols + len(name)) % 3 == 0:
+        # the legacy (warning-only) construction of a trough: a Labware with virtual rows
+        cn = {f"A{c + 1:02d}": n for c, n in enumerate(names) if n is not None}
+        return robotools.Labware(name, 1, cols, min_volume=float(t["min_volume"]), max_volume=max(init) + 1000.0,
+                                 initial_volumes=init, virtual_rows=t["virtual_rows"], component_names=cn)
     return robotools.Trough(name, t["virtual_rows"], cols, min_volume=float(t["min_volume"]), max_volume=max(init) + 1000.0,
                             initial_volumes=init, column_names=names)
 
